@@ -22,15 +22,33 @@ import (
 )
 
 func init() {
+	engines["C09FAULT"] = runFormatFault // development: the format-after-faults part alone
 	engines["C09"] = func() *ShardResult {
 		total := *fBudget
-		*fBudget = total * 2 / 3
+		*fBudget = total / 2
 		res := runFormat()
-		*fBudget = total / 3
+		*fBudget = total / 4
 		res.merge(runFormatCrash(), "crash_")
+		res.merge(runFormatFault(), "fault_")
 		*fBudget = total
 		return res
 	}
+}
+
+// runFormatFault: the format after I/O failures. The workloads, fault positions, flavours and continuations of
+// the fault engine (C10) run with a final hook: after the fault is cleared and the directory has been reopened
+// cleanly twice, the files are decoded independently and must hold exactly what the WAL shows (every commit
+// frame's CRC covers the bytes since the previous one, sealed segments carry exactly one index frame at
+// IndexStart, unsealed ones none). Only C09 clauses are reported.
+func runFormatFault() *ShardResult {
+	core.FaultFinalHook = func(s *core.Sys, shown *core.Model) []core.Violation {
+		eo := &endOracle{model: shown, afterFaults: true, what: "after I/O failures, the fault cleared and two clean reopens: "}
+		return eo.check(s)
+	}
+	defer func() { core.FaultFinalHook = nil }()
+	res := runFault("C09")
+	res.Bounds["oracle"] = "independent decode of every listed segment file after the final clean reopen"
+	return res
 }
 
 // runFormatCrash: the format after a recovery. Every crash image of short workloads is recovered by Open, one
@@ -295,6 +313,10 @@ type endOracle struct {
 	n       int
 	checked int
 	what    string
+	// afterFaults: the history contained failed I/O. A sealing attempt whose fsync failed can leave a
+	// well-formed index frame behind that a later recovery walks over (the pinned tree does this: the tail
+	// is then taken as unsealed and sealed again later), so the number of index frames is not asserted there.
+	afterFaults bool
 }
 
 func (eo *endOracle) afterStep(i int, op core.Op, err error, s *core.Sys) []core.Violation {
@@ -307,6 +329,11 @@ func (eo *endOracle) afterStep(i int, op core.Op, err error, s *core.Sys) []core
 	if i != eo.n || s.W == nil {
 		return nil
 	}
+	return eo.check(s)
+}
+
+// check applies the end-state clauses to what is on the (quiescent) simulated disk of s.
+func (eo *endOracle) check(s *core.Sys) []core.Violation {
 	var vs []core.Violation
 	bad := func(f string, a ...interface{}) {
 		what := eo.what
@@ -353,6 +380,9 @@ func (eo *endOracle) afterStep(i int, op core.Op, err error, s *core.Sys) []core
 			bad("%s: header %+v disagrees with file name / metadata", name, d.Header)
 		}
 		lo, hi := sg.MinIndex, sg.MaxIndex
+		if want := map[bool]int{true: 1, false: 0}[sealed]; d.IndexFrames != want && !eo.afterFaults {
+			bad("%s (sealed=%v): %d committed index frames in the file, the layout has %d (index frames are written once, when the segment is sealed); frames: %s", name, sealed, d.IndexFrames, want, d.Frames)
+		}
 		if sealed {
 			if d.IndexStart == 0 || sg.IndexStart != d.IndexStart {
 				bad("%s: metadata IndexStart %d, committed index array at %d", name, sg.IndexStart, d.IndexStart)
